@@ -226,6 +226,8 @@ def walks(ctx, n, steps, base_seed, **kw):
         kw['profiles'] = prof
         k2 = {k: v for k, v in kw.items() if k != 'profiles'}
         k2.setdefault('allow_api_after_lost', False)
+        if 'naddr' not in k2 and i % 4 == 3:
+            k2['naddr'] = 2          # every fourth walk serves two broker addresses through the one factory
         w = walker.Walker(seed, profile=profile, **k2)
         w.run(steps)
         out.append(('seed%d' % seed, w.lines, w.trace))
